@@ -405,18 +405,24 @@ def table_kind_rows(ctx, fns, rule='C15.table-kind'):
         stubs['self.get_aliased_fields'] = lambda it, t: {}
         stubs['recursively_check_join_identifiers_for_ambiguity'] = lambda it, *a, **k: None
         stubs['Join'] = lambda it, **k: Obj('Join', **k)
-        stubs['self.adapt_dbt_query'] = lambda it, q, integration: (q, q.from_table.left.from_table if left_is_model is False else q.from_table.right.from_table)
+        # adapt_dbt_query (the sub-select form) is interpreted as it is: it has to find the sub-select on whichever side it was written
+        stubs['query_traversal'] = lambda it, node, cb, **k: None
+        stubs['Latest'] = lambda it: latest()
         stubs['self.planner.plan.add_step'] = lambda it, s_: (setattr(s_, 'result', Obj('Result', ref_name='r')), s_)[1]
         stubs['self.planner.plan_project'] = lambda it, q, df: Obj('Projected', dataframe=df)
         join = Obj('Join', left=model if left_is_model else other, right=other if left_is_model else model, join_type='JOIN', condition=None, implicit=False, alias=None)
         q = select_ctor(None, targets=[Obj('Star')], from_table=join)
         it = interp_for(stubs)
         it.isa.update({'Identifier': set(), 'Join': set(), 'Select': set(), 'Union': set(), 'NativeQuery': set()})
+        # everything a table reference / a join can carry: asking one of them for `from_table` is an AttributeError, not an unmodelled stand-in
+        it.class_fields = {'Identifier': {'parts', 'alias', 'parentheses', 'is_quoted', 'sub_select', '_table', 'to_string', 'get_string', 'to_tree', 'copy'},
+                           'Join': {'left', 'right', 'join_type', 'condition', 'implicit', 'alias', 'parentheses', 'to_string', 'get_string', 'to_tree', 'copy'}}
         raised = None
         try:
             plan_ = Obj('QueryPlan', steps=[Obj('FetchDataframeStep', result=Obj('Result', ref_name='r0'))],
                         add_step=lambda s_: (setattr(s_, 'result', Obj('Result', ref_name='r')), s_)[1])
-            it.call_function(pl, [Obj('PlanJoinTSPredictorQuery', planner=Obj('QueryPlanner', plan=plan_, default_namespace='mindsdb')), q], {}, Env())
+            from .C10 import real_planner
+            it.call_function(pl, [Obj('PlanJoinTSPredictorQuery', planner=real_planner(ctx, ['int1', 'int2', {'name': 'proj', 'type': 'project'}], [], plan=plan_)), q], {}, Env())
         except Raised as r:
             raised = r.exc_name
         n += 1
